@@ -159,7 +159,8 @@ impl<I: FangProc> FangProc for DynProc<I> {
 // handlers
 
 fn handler_response(id: u32, params: &[&str], req: &Request) -> Response {
-    let mut res = Response::OK().with_text(format!("h{id}|{}", params.join("|")));
+    let status = if ERRORING.with(|e| e.get()) && id % 4 == 0 { ohkami::Status::InternalServerError } else { ohkami::Status::OK };
+    let mut res = Response::new(status).with_text(format!("h{id}|{}", params.join("|")));
     res.headers.set().x("X-Handler", id.to_string()).x("X-In", format!("[{}]", render_in(req)));
     res
 }
@@ -219,7 +220,34 @@ fn leak(s: &str) -> &'static str {
     Box::leak(s.to_string().into_boxed_str())
 }
 
+thread_local! {
+    /// C14: handlers whose id is a multiple of 4 answer 500 (an erroring handler)
+    pub static ERRORING: std::cell::Cell<bool> = const { std::cell::Cell::new(false) };
+}
+
+/// like `build`, with `root_fangs` as the fangs of the outermost application (its own `fangs` must be empty)
+pub fn build_root_with(app: &AppSpec, root_fangs: impl ohkami::fang::Fangs + 'static) -> Ohkami {
+    assert!(app.fangs.is_empty());
+    Ohkami::with(root_fangs, build_items(app))
+}
+
 pub fn build(app: &AppSpec) -> Ohkami {
+    let items = build_items(app);
+    let f = |i: usize| DynFang(app.fangs[i].clone());
+    match app.fangs.len() {
+        0 => Ohkami::new(items),
+        1 => Ohkami::with((f(0),), items),
+        2 => Ohkami::with((f(0), f(1)), items),
+        3 => Ohkami::with((f(0), f(1), f(2)), items),
+        4 => Ohkami::with((f(0), f(1), f(2), f(3)), items),
+        5 => Ohkami::with((f(0), f(1), f(2), f(3), f(4)), items),
+        6 => Ohkami::with((f(0), f(1), f(2), f(3), f(4), f(5)), items),
+        7 => Ohkami::with((f(0), f(1), f(2), f(3), f(4), f(5), f(6)), items),
+        _ => Ohkami::with((f(0), f(1), f(2), f(3), f(4), f(5), f(6), f(7)), items),
+    }
+}
+
+fn build_items(app: &AppSpec) -> Items {
     let mut items = Vec::new();
     for it in &app.items {
         match it {
@@ -251,19 +279,7 @@ pub fn build(app: &AppSpec) -> Ohkami {
             }
         }
     }
-    let items = Items(items);
-    let f = |i: usize| DynFang(app.fangs[i].clone());
-    match app.fangs.len() {
-        0 => Ohkami::new(items),
-        1 => Ohkami::with((f(0),), items),
-        2 => Ohkami::with((f(0), f(1)), items),
-        3 => Ohkami::with((f(0), f(1), f(2)), items),
-        4 => Ohkami::with((f(0), f(1), f(2), f(3)), items),
-        5 => Ohkami::with((f(0), f(1), f(2), f(3), f(4)), items),
-        6 => Ohkami::with((f(0), f(1), f(2), f(3), f(4), f(5)), items),
-        7 => Ohkami::with((f(0), f(1), f(2), f(3), f(4), f(5), f(6)), items),
-        _ => Ohkami::with((f(0), f(1), f(2), f(3), f(4), f(5), f(6), f(7)), items),
-    }
+    Items(items)
 }
 
 // ---------------------------------------------------------------------------------------------
